@@ -51,9 +51,7 @@ Lemma gen_v2_limited_body : forall blk limit pre i rest best,
   | _ => None
   end.
 Proof.
-  intros. cbn [lim_loop]. unfold g_v2_limited_encode_body. rewrite Z.gtb_ltb.
-  destruct (Nat.ltb_spec limit (enc_len blk (pre ++ [i])));
-    destruct (Z.ltb_spec (Z.of_nat limit) (Z.of_nat (enc_len blk (pre ++ [i])))); try reflexivity; exfalso; lia.
+  intros. cbn [lim_loop]. unfold g_v2_limited_encode_body. gen_split; try reflexivity; exfalso; lia.
 Qed.
 
 (* whole function: no identifiers - the observation is encoded as it is; otherwise the prefix loop decides *)
@@ -63,7 +61,9 @@ Lemma gen_v2_limited : forall blk ids limit,
   | ([], RetO 1) => Some []
   | _ => lim_loop blk limit [] ids None
   end.
-Proof. intros. unfold limited_encode, g_v2_limited_encode. destruct ids; reflexivity. Qed.
+Proof.
+  intros. unfold limited_encode, g_v2_limited_encode. destruct ids; cbn [length]; gen_split; try reflexivity; exfalso; lia.
+Qed.
 
 (* ---------------- polling observer: sampling a head ---------------- *)
 (* one check result of the sampling run: staged exactly when the eligibility test succeeded, said eligible, and the
@@ -106,4 +106,6 @@ Proof. split; [reflexivity|]. intros f. destruct f; reflexivity. Qed.
 (* sampling: nothing when there are no keys or the ratio gives none; otherwise the first [size] shuffled keys *)
 Lemma gen_v2_shuffle_slice : forall n size,
   g_v2_shuffle_slice n size = if (n =? 0) || (size <=? 0) then ([1], RetO 0) else ([1], RetO 1).
-Proof. intros. reflexivity. Qed.
+Proof.
+  intros. unfold g_v2_shuffle_slice. gen_split; cbn [orb]; try reflexivity; exfalso; lia.
+Qed.
